@@ -67,6 +67,10 @@ func c11Check(c *caseCtx, g *genReq, d decision, tag string) {
 	c.count("evaluations", 1)
 	if !d.OK {
 		c.count("rejected", 1)
+		if methodFailed(d) {
+			// the generated request is in the method's domain: failing inside Evaluate is not "ranking the alternatives"
+			c.violate("method-failed:"+errClass(d.Err), "the method fails on an in-domain request instead of ranking: "+d.Err, M{"request": g.M})
+		}
 		return
 	}
 	ev := d.Trace.Eval
@@ -225,6 +229,10 @@ func c12Check(c *caseCtx, g *genReq, d decision) {
 	c.count("evaluations", 1)
 	if !d.OK {
 		c.count("rejected", 1)
+		if methodFailed(d) {
+			// the generated request is in the method's domain: failing inside Evaluate is not "ranking the alternatives"
+			c.violate("method-failed:"+errClass(d.Err), "the method fails on an in-domain request instead of ranking: "+d.Err, M{"request": g.M})
+		}
 		return
 	}
 	ev := d.Trace.Eval
@@ -385,6 +393,10 @@ func c13Check(c *caseCtx, g *genReq, d decision) {
 	c.count("evaluations", 1)
 	if !d.OK {
 		c.count("rejected", 1)
+		if methodFailed(d) {
+			// the generated request is in the method's domain: failing inside Evaluate is not "ranking the alternatives"
+			c.violate("method-failed:"+errClass(d.Err), "the method fails on an in-domain request instead of ranking: "+d.Err, M{"request": g.M})
+		}
 		return
 	}
 	ev := d.Trace.Eval
